@@ -15,6 +15,7 @@
 (*              brothers, the brother-count payload, per brother meta+data *)
 (*  t.dev       total | partial | failure | abandoned                      *)
 (*  t.code / t.hascode   the reply;  t.coop  cooperative device            *)
+(*  t.lost      the answer to one exchange of the command was lost         *)
 (***************************************************************************)
 EXTENDS Naturals, Sequences, SequencesExt, TLC
 
@@ -28,6 +29,8 @@ BrosOk(t, j) ==
     LET g == t.got.blocks[j]
         e == t.blocks[j] IN
     IF ~g.asked THEN g.bros = <<>>
+    \* (the device's request for brothers may be the very answer that was lost: then nothing about them was sent)
+    ELSE IF t.lost /\ g.brocount = <<>> THEN g.bros = <<>>
     ELSE /\ g.brocount = <<Len(e.bros)>>
          /\ Len(g.bros) <= Len(e.bros)
          /\ \A k \in 1..Len(g.bros) : g.bros[k].meta = e.bros[k].meta /\ IsPrefix(g.bros[k].data, e.bros[k].hdr)
@@ -47,8 +50,12 @@ Clauses(t) == <<
     <<"BrothersMissing", \A j \in 1..NG(t) : (j <= Len(t.blocks) /\ Finished(t, j)) => BrosComplete(t, j)>>,
     <<"BrothersSentToAncestorUpdate", ~t.advance => \A j \in 1..NG(t) : ~t.got.blocks[j].asked>>,
     <<"ReplyWithoutErrorCode", t.hascode>>,
-    <<"TotalSuccessMisreported", (t.code = 0) <=> (t.dev = "total")>>,
-    <<"PartialSuccessMisreported", (t.code = 1) <=> (t.dev = "partial")>>,
+    \* (t.lost: the answer to one of the command's exchanges never arrived - the host cannot know what the device
+    \* concluded, but it must still not claim a success the device did not report)
+    <<"TotalSuccessMisreported", /\ (t.code = 0) => (t.dev = "total")
+                                 /\ (t.dev = "total" /\ ~t.lost) => (t.code = 0)>>,
+    <<"PartialSuccessMisreported", /\ (t.code = 1) => (t.dev = "partial")
+                                   /\ (t.dev = "partial" /\ ~t.lost) => (t.code = 1)>>,
     <<"CooperativeDeviceNotServed", t.coop => t.code \in {0, 1}>> >>
 
 RECURSIVE FirstFailB(_)
